@@ -267,10 +267,26 @@ func Main[C any, O any](sp Spec[C, O]) {
 		terms = nil
 	}
 	for i, c := range cases {
-		o := sp.Run(c)
 		in, _ := json.Marshal(c)
-		ob, _ := json.Marshal(o)
 		kind := sp.Kind(c)
+		// the case in flight: should the real code crash the process or hang, the orchestrator
+		// reports this input as the failing one
+		infl, _ := json.Marshal(record{Index: i, Kind: kind, Input: in, Obs: json.RawMessage(`{"crash":"process died or hung while this case was running"}`)})
+		_ = os.WriteFile(filepath.Join(*out, "inflight.json"), infl, 0o644)
+		o := func() O {
+			defer func() {
+				if r := recover(); r != nil {
+					msg, _ := json.Marshal(map[string]string{"crash": fmt.Sprint(r)})
+					cr, _ := json.Marshal(record{Index: i, Kind: kind, Input: in, Obs: msg})
+					_ = os.WriteFile(filepath.Join(*out, "crash.json"), cr, 0o644)
+					jw.Flush()
+					fmt.Fprintf(os.Stderr, "vgen: case %d (%s) panicked: %v\n", i, kind, r)
+					os.Exit(4)
+				}
+			}()
+			return sp.Run(c)
+		}()
+		ob, _ := json.Marshal(o)
 		rec := record{Index: i, Kind: kind, Input: in, Obs: ob}
 		line, _ := json.Marshal(rec)
 		jw.Write(line)
@@ -295,6 +311,7 @@ func Main[C any, O any](sp Spec[C, O]) {
 	flush()
 	jw.Flush()
 	jf.Close()
+	_ = os.Remove(filepath.Join(*out, "inflight.json"))
 	st.Distinct = len(seen)
 	st.DistinctNontrivial = len(seenNT)
 	sj, _ := json.MarshalIndent(st, "", " ")
